@@ -15,4 +15,5 @@ func reg(name string, f func()) { Harnesses[name] = f }
 func resetGlobals() {
 	small, noCall, fullAmounts, call2, varyHash, medium = false, false, false, false, false, false
 	scnItems, scnDNS = nil, nil
+	counterReadFaults = false
 }
